@@ -45,6 +45,8 @@ Val(n) == CASE n = "i1" -> Sc("int", 10000) [] n = "i2" -> Sc("int", 20000) [] n
             \* one-shot lazy iterables (a reversed-iterator, a map object: the kinds the comparison documents as list generators) yielding 1, 2: the documented equality materialises them,
             \* so they stand for the list of their elements; each use gets a FRESH iterator
             [] n \in {"R12", "M12"} -> V("list", 0, "-", "-", <<Sc("int", 10000), Sc("int", 20000)>>)
+            \* an object of a student class whose __repr__ and __str__ raise: equal to nothing but itself, unordered, truthy
+            [] n = "Brepr" -> Sc("obj", 0)
             [] n = "T123" -> V("tuple", 0, "-", "-", <<Sc("int", 10000), Sc("int", 20000), Sc("int", 30000)>>)
             [] n = "L1a" -> V("list", 0, "-", "-", <<Sc("int", 10000), St("abc", "plain")>>)
             [] n = "T1a" -> V("tuple", 0, "-", "-", <<Sc("int", 10000), St("abc", "plain")>>)
@@ -116,7 +118,7 @@ Ord(l, r) == IF (l.k = "nan" /\ (Numeric(r) \/ r.k = "nan")) \/ (r.k = "nan" /\ 
 SeqOrd(l, r, i) == IF i > Len(l.e) /\ i > Len(r.e) THEN "eq" ELSE IF i > Len(l.e) THEN "lt" ELSE IF i > Len(r.e) THEN "gt"
                    ELSE IF ~PyEq(l.e[i], r.e[i]) THEN Ord(l.e[i], r.e[i]) ELSE SeqOrd(l, r, i + 1)
 Truthy(v) == CASE v.k = "nan" -> TRUE [] v.k = "set" -> v.e # <<>> [] Numeric(v) -> v.x # 0 [] v.k = "str" -> v.core # "" [] v.k \in {"list", "tuple"} -> v.e # <<>>
-               [] v.k = "dict" -> TRUE
+               [] v.k \in {"dict", "obj"} -> TRUE
                [] OTHER -> FALSE
 HasLen(v) == v.k \in {"str", "list", "tuple", "dict", "set"}
 LenOf(v) == IF v.k = "dict" THEN 1 ELSE IF v.k = "str" THEN (IF v.core = "" THEN 0 ELSE 3 + (IF v.deco = "punct" THEN 1 ELSE 0)) ELSE Len(v.e)
